@@ -297,7 +297,8 @@ func calcPositionIfNeededHevc(pkt *RtpPacket) {
 	// +-------------+-----------------+
 
 	outerNaluType := hevc.ParseNaluType(b[0])
-	if _, ok := hevc.NaluTypeMapping[outerNaluType]; ok {
+	// rfc7798 4.4.1: 类型小于48的都是Single NAL unit packet（包括EOS、EOB、FD等），48是AP，49是FU
+	if outerNaluType < NaluTypeHevcAp {
 		pkt.positionType = PositionTypeSingle
 		return
 	}
